@@ -12,7 +12,8 @@ LEVEL = 'exploration'
 RULE = ('Cells of the cross product method {GET, POST, OPTIONS, PUT, DELETE, HEAD, PATCH} x EIO '
         '{absent, 4, 3, empty, 44, repeated} x transport {absent, polling, websocket, bogus, '
         'Polling} x sid kind {absent, live polling, live upgraded, mid-upgrade, closed-not-reaped, '
-        'unknown, rejected} x request kind {plain HTTP, WebSocket upgrade} x JSONP index {absent, '
+        'unknown, rejected} x request kind {plain HTTP, WebSocket upgrade, GET with Upgrade: '
+        'websocket, h2c, GET with Upgrade but no Connection header} x JSONP index {absent, '
         '0, 12, x, empty} x configured transports {both, polling, websocket} x server {threaded, '
         'asyncio}; each cell is issued against a freshly built session in the required state with '
         'one tagged message queued and a bystander session. Oracle: reference admission rule '
@@ -30,7 +31,10 @@ METHODS = ['GET', 'POST', 'OPTIONS', 'PUT', 'DELETE', 'HEAD', 'PATCH']
 EIOS = ['absent', '4', '3', 'empty', '44', 'repeated']
 TRANSPORTS = ['absent', 'polling', 'websocket', 'bogus', 'Polling', 'poll', 'socket']
 SIDS = ['absent', 'live-polling', 'live-upgraded', 'mid-upgrade', 'closed', 'unknown', 'rejected']
-KINDS = ['http', 'ws']
+KINDS = ['http', 'ws', 'ws-list', 'ws-noconn']
+# requests whose upgrade headers are not exactly those of a WebSocket upgrade
+ODD = {'ws-list': [('Upgrade', 'websocket, h2c'), ('Connection', 'Upgrade')],
+       'ws-noconn': [('Upgrade', 'websocket')]}
 JSONP = ['absent', '0', '12', 'x', 'empty', 'sup2']
 CONFIGS = ['both', 'polling', 'websocket', 'polling-str', 'websocket-str']
 IMPLS = ['thread', 'async']
@@ -48,8 +52,11 @@ def all_cells():
 
 def feasible(c):
     impl, cfg, sidk, method, kind, eio, tr, j = c
-    if kind == 'ws' and method != 'GET':
+    if kind != 'http' and method != 'GET':
         return False
+    if kind in ODD and (eio not in ('4', 'absent') or j not in ('absent', 'x') or
+                        cfg.endswith('-str')):
+        return False            # the odd-header kinds vary sid, transport and configuration
     if cfg.startswith('polling') and sidk in ('live-upgraded', 'mid-upgrade'):
         return False
     if cfg.startswith('websocket') and sidk in ('live-polling', 'mid-upgrade', 'closed'):
@@ -60,7 +67,15 @@ def feasible(c):
 
 
 def ref_admission(c):
-    """-> ('refuse', {statuses}) | ('admit',) | ('open', why)"""
+    """-> ('refuse', {statuses}, why) | ('admit',) | ('open', why)"""
+    if c[4] in ODD:
+        # such a request is either an ordinary GET or an upgrade request: certain only where
+        # both readings agree
+        a = ref_admission(c[:4] + ('http',) + c[5:])
+        b = ref_admission(c[:4] + ('ws',) + c[5:])
+        if a[0] == 'refuse' and b[0] == 'refuse':
+            return ('refuse', set(a[1]) | set(b[1]), sorted(set(a[2]) | set(b[2])))
+        return ('open', 'upgrade headers that are not exactly those of a websocket upgrade')
     impl, cfg, sidk, method, kind, eio, tr, j = c
     allowed_tr = {'both': ['polling', 'websocket'], 'polling': ['polling'],
                   'websocket': ['websocket'], 'polling-str': ['polling'],
@@ -200,21 +215,34 @@ def check_cell(c, ctx=None):
         skip = (1,) if sidk in ('closed', 'rejected') else ()
         before = snapshot(ex, skip)
         q = build_query(c, sid)
+        isws = kind == 'ws' or (kind in ODD and impl == 'thread')
         if kind == 'ws':
             r = ex.world.ws_open(q, headers=[('Host', 'localhost')])
+        elif kind in ODD and impl == 'thread':
+            # a WSGI gateway with WebSocket support can upgrade any GET the application chooses
+            r = ex.world.ws_open(q, headers=[('Host', 'localhost')], upgrade_hdrs=ODD[kind])
+        elif kind in ODD:
+            # an ASGI server opens a websocket scope only for an exact upgrade request
+            r = ex.world.http('GET', q, headers=[('Host', 'localhost')] + ODD[kind])
         else:
             r = ex.world.http(method, q, headers=[('Host', 'localhost')],
                               body=b'4C1.9~x' if method == 'POST' else b'')
         ex.world.settle()
-        if kind == 'ws':
+        if isws:
             status = 'accepted' if r.accepted else (r.http_status or 'rejected')
             done = True
         else:
             status, done = r.status, r.done
+        if kind in ODD and cfg.startswith('polling') and (
+                getattr(r, 'accepted', False) or getattr(r, 'ws_attempt', False)):
+            raise V(impl, 'inadmissible-websocket-accepted',
+                    'WS|sid=%s|transport-not-allowed|%s' % (sidk, kind),
+                    'cell %s: the server spoke WebSocket although transports=polling '
+                    '(query %r, headers %r)' % (c, q, ODD[kind]), rep)
         trig = '%s|sid=%s|%s' % (method if kind == 'http' else 'WS', sidk,
                                  '+'.join(ref[2]) if ref[0] == 'refuse' else ref[0])
         if ref[0] == 'refuse':
-            if kind == 'ws':
+            if isws:
                 refused = not r.accepted or (r.done and not r.sent)
                 if not refused:
                     raise V(impl, 'inadmissible-websocket-accepted', trig,
@@ -244,7 +272,7 @@ def check_cell(c, ctx=None):
             if sidk in ('live-polling', 'live-upgraded', 'mid-upgrade'):
                 check_queue_intact(ex, c, rep, trig)
         elif ref[0] == 'admit':
-            if kind == 'http':
+            if not isws:
                 if r.exc is not None:
                     raise V(impl, 'admissible-request-raised', trig + '|' + type(r.exc).__name__,
                             'cell %s: %r escaped' % (c, r.exc), rep)
@@ -260,7 +288,7 @@ def check_cell(c, ctx=None):
         if ctx:
             nt = (ref[0] == 'refuse' and len(ref[2]) == 1) or sidk in ('mid-upgrade', 'closed',
                                                                       'rejected', 'live-upgraded')
-            ctx.case(rep, nt, [impl, 'ref-' + ref[0], 'sid-' + sidk,
+            ctx.case(rep, nt, [impl, 'ref-' + ref[0], 'sid-' + sidk, 'kind-' + kind,
                                'status-%s' % status])
     finally:
         ex.close()
